@@ -75,6 +75,12 @@ def main():
              "kind_free_text": "property-based testing: sharded Hypothesis "
                                "campaigns, case dict = replay file, "
                                "signature-based known-finding matching"},
+            {"name": "atheris", "path": "vp/fuzz_atheris.py",
+             "serves_properties": ["C16", "C18"],
+             "kind_free_text": "coverage-guided fuzzing (libFuzzer) of the "
+                               "same Hypothesis strategy and oracle through "
+                               "fuzz_one_input; thorough tier only, optional "
+                               "(installed offline by setup.sh into .deps)"},
         ],
         "checks": checks,
         "not_applicable": na,
